@@ -623,6 +623,7 @@ func (p *Policy) Persist(ctx context.Context, storage logical.Storage) (retErr e
 	// roll back keys, but better safe than sorry and this doesn't happen
 	// enough to worry about the speed tradeoff.
 	priorArchiveVersion := p.ArchiveVersion
+	priorArchiveMinVersion := p.ArchiveMinVersion
 	var priorKeys keyEntryMap
 
 	if p.Keys != nil {
@@ -633,6 +634,7 @@ func (p *Policy) Persist(ctx context.Context, storage logical.Storage) (retErr e
 	defer func() {
 		if retErr != nil {
 			p.ArchiveVersion = priorArchiveVersion
+			p.ArchiveMinVersion = priorArchiveMinVersion
 			p.Keys = priorKeys
 		}
 	}()
